@@ -25,7 +25,7 @@ import threading
 
 from hypothesis import strategies as st
 
-from .core import Violation, require, canon, setup_path
+from .core import Violation, HarnessError, require, canon, setup_path
 from . import values as V
 
 setup_path()
@@ -51,7 +51,7 @@ from eliot import _output  # noqa: E402
 from eliot._output import Destinations  # noqa: E402
 from eliot import _errors as eliot_errors  # noqa: E402
 
-ACTION_KINDS = ["with", "finish", "finish_inside", "run", "typed", "typed_task", "task", "log_call"]
+ACTION_KINDS = ["with", "finish", "finish_inside", "run", "typed", "typed_task", "task", "log_call", "gen_close", "gen_next", "gen_throw"]
 MSG_KINDS = ["log_message", "action_log", "Message_log", "Message_new", "typed"]
 
 # --------------------------------------------------------------- exceptions
@@ -182,17 +182,21 @@ class Interp(object):
     def api(self, kind, fn, /, *a, **kw):
         try:
             return fn(*a, **kw)
-        except Abort:
+        except (Abort, HarnessError):
             raise
         except BaseException as e:
             if id(e) in self.raised and self.raised[id(e)] is e:
+                raise
+            if getattr(e, "injected", False):
+                # a fault injected by the case (e.g. a raising custom logger):
+                # from here on it is an exception travelling through the program
+                self.raised[id(e)] = e
+                self.stat("injected-fault-raised")
                 raise
             import traceback as tbm
 
             frames = tbm.extract_tb(e.__traceback__)
             if frames and (os.sep + "pbt" + os.sep) in frames[-1].filename and not getattr(e, "hostile", False):
-                from .core import HarnessError
-
                 raise HarnessError("harness bug inside API call %s: %s" % (kind, "".join(tbm.format_exception(type(e), e, e.__traceback__))))
             inner = [f for f in frames if os.sep + "eliot" + os.sep in f.filename]
             where = "%s:%s" % (os.path.basename(inner[-1].filename), inner[-1].name) if inner else "?"
@@ -297,14 +301,17 @@ class Interp(object):
     def op_tb(self, node, ctx, pending):
         n = self.next_n()
         e = make_exc(node["exc"], n)
+        xf, tbs = self.extractor_fields(e)
         model = {
             "kind": "msg",
             "type": "eliot:traceback",
             "tb": True,
-            "fields": dict(self.extractor_fields(e), reason=safe_str(e), exception=exc_name(e)),
+            "fields": dict(xf, reason=safe_str(e), exception=exc_name(e)),
             "n": n,
             "exc_obj": e,
         }
+        for t in tbs:
+            self.attach(ctx, t)
         self.attach(ctx, model)
         self.stat("traceback")
         try:
@@ -323,7 +330,7 @@ class Interp(object):
         depth = len(ctx.stack)
         try:
             self.exec_nodes(node["body"], ctx)
-        except Abort:
+        except (Abort, HarnessError):
             raise
         except BaseException as e:
             if self.raised.get(id(e)) is not e:
@@ -334,21 +341,51 @@ class Interp(object):
         del ctx.stack[depth:]
         self.expect_current(ctx, "after try")
 
-    def extractor_fields(self, e):
+    def extractor_fields(self, e, _nested=False):
+        """Model of the registry: nearest class in the MRO; -> (fields, [tb models])."""
         for klass in type(e).__mro__:
             if klass in self.extractors:
-                try:
-                    return dict(self.extractors[klass](e))
-                except Exception:
-                    return {}
-        return {}
+                beh = self.extractors[klass]
+                if callable(beh):
+                    try:
+                        return dict(beh(e)), []
+                    except Exception:
+                        return {}, []
+                if "fields" in beh:
+                    return dict(beh["fields"]), []
+                # the extractor raises X: one traceback for X is logged,
+                # unless we are already reporting an extractor failure
+                if _nested:
+                    return {}, []
+                x = make_exc(beh["raise"], 0)
+                xf, _ = self.extractor_fields(x, _nested=True)
+                tb = {
+                    "kind": "msg",
+                    "type": "eliot:traceback",
+                    "tb": True,
+                    "fields": dict(xf, reason=safe_str(x), exception=exc_name(x)),
+                    "n": None,
+                }
+                self.stat("extractor-raised")
+                return {}, [tb]
+        return {}, []
 
-    def _fail(self, model, e):
+    def _fail(self, model, e, ctx=None):
         model["status"] = "failed"
         model["exception"] = exc_name(e)
         model["reason"] = safe_str(e)
-        model["end"] = self.extractor_fields(e)
+        fields, tbs = self.extractor_fields(e)
+        model["end"] = fields
         model["exc_obj"] = e
+        for tb in tbs:
+            # logged while finishing: inside the action itself when it is
+            # finished inside its own context, else in the enclosing context
+            if model.get("akind") == "finish_inside":
+                model["children"].append(tb)
+            elif ctx is not None:
+                self.attach(ctx, tb)
+            else:
+                self.run.tasks.append(tb)
 
     def op_action(self, node, ctx, pending):
         n = self.next_n()
@@ -382,14 +419,19 @@ class Interp(object):
             self._after(node, ctx, model, before, None)
             return
 
+        if kind in ("gen_close", "gen_next", "gen_throw"):
+            self._gen_action(node, ctx, model, n, py_sf, py_ef, before)
+            return
+
+        custom_logger = self.opts.get("logger")
         if kind in ("typed", "typed_task"):
             at = ActionType(atype, self.declared(sf, typed), self.declared(ef, typed, extra=()), "")
             starter = at.as_task if kind == "typed_task" else at
-            action = self.api("ActionType()", starter, n=n, **py_sf)
+            action = self.api("ActionType()", starter, custom_logger, n=n, **py_sf)
         elif kind == "task":
-            action = self.api("start_task", start_task, action_type=atype, n=n, **py_sf)
+            action = self.api("start_task", start_task, custom_logger, action_type=atype, n=n, **py_sf)
         else:
-            action = self.api("start_action", start_action, action_type=atype, n=n, **py_sf)
+            action = self.api("start_action", start_action, custom_logger, action_type=atype, n=n, **py_sf)
         model["obj"] = action
         model["end_expected"] = self.ser_fields(ef, typed)
 
@@ -409,7 +451,7 @@ class Interp(object):
             self.api("__enter__", action.__enter__)
             try:
                 body()
-            except Abort:
+            except (Abort, HarnessError):
                 raise
             except BaseException as e:
                 exc = e
@@ -424,7 +466,7 @@ class Interp(object):
             self.api("context.__enter__", cm.__enter__)
             try:
                 body()
-            except Abort:
+            except (Abort, HarnessError):
                 raise
             except BaseException as e:
                 exc = e
@@ -438,7 +480,7 @@ class Interp(object):
             self.api("context.__enter__", cm.__enter__)
             try:
                 body()
-            except Abort:
+            except (Abort, HarnessError):
                 raise
             except BaseException as e:
                 exc = e
@@ -450,7 +492,7 @@ class Interp(object):
         elif kind == "run":
             try:
                 self.api("run", action.run, body)
-            except Abort:
+            except (Abort, HarnessError):
                 raise
             except BaseException as e:
                 exc = e
@@ -460,6 +502,123 @@ class Interp(object):
         else:
             raise ValueError(kind)
         self._after(node, ctx, model, before, action, exc)
+        if exc is not None:
+            raise exc
+
+    def _gen_action(self, node, ctx, model, n, py_sf, py_ef, before):
+        """
+        A plain (undecorated) generator holding `with start_action(...)`
+        across a yield; the body runs while it is suspended, then it is
+        closed, thrown into, or resumed to completion (LIFO).
+        """
+        kind = node["kind"]
+        atype = node["atype"]
+        box = {}
+        custom_logger = self.opts.get("logger")
+
+        def genfn():
+            with start_action(custom_logger, action_type=atype, n=n, **py_sf) as action:
+                box["action"] = action
+                if py_ef:
+                    action.add_success_fields(**py_ef)
+                yield 1
+
+        it = genfn()
+        self.api("next(gen)", next, it)
+        model["obj"] = box["action"]
+        model["end_expected"] = self.ser_fields(node["ef"], None)
+        ctx.stack.append(model)
+        exc = None
+        try:
+            try:
+                self.expect_current(ctx, "inside generator action %d" % n)
+                self.exec_nodes(node["body"], ctx)
+            finally:
+                ctx.stack.pop()
+        except (Abort, HarnessError):
+            raise
+        except BaseException as e:
+            exc = e
+            self._throw_into(it, e)
+        else:
+            if kind == "gen_close":
+                self.api("gen.close()", it.close)
+                self._fail(model, GeneratorExit(), ctx)
+            elif kind == "gen_next":
+                self.api("next(gen)", lambda: next(it, None))
+            else:
+                e = make_exc(node.get("exc", 0), self.next_n())
+                self.raised[id(e)] = e
+                exc = e
+                self._throw_into(it, e)
+        self._after(node, ctx, model, before, None, exc)
+        if exc is not None:
+            raise exc
+
+    def _throw_into(self, it, e):
+        try:
+            it.throw(e)
+        except (Abort, HarnessError):
+            raise
+        except BaseException as e2:
+            if e2 is not e:
+                if getattr(e2, "injected", False):
+                    self.raised[id(e2)] = e2
+                    raise
+                self.run.errors.append({"call": "gen.throw", "exception": "a different exception came out: %r" % (e2,), "where": "_action.py:__exit__"})
+                raise Abort()
+        else:
+            self.run.errors.append({"call": "gen.throw", "exception": "exception swallowed by the with block", "where": "_action.py:__exit__"})
+            raise Abort()
+
+    def op_reenter(self, node, ctx, pending):
+        """Re-enter the context of an action already on the stack."""
+        if not ctx.stack:
+            self.stat("reenter-skipped")
+            return
+        target = ctx.stack[-1 - (node.get("up", 0) % len(ctx.stack))]
+        action = target.get("obj")
+        if action is None:
+            self.stat("reenter-skipped")
+            return
+        self.stat("reenter:" + node["how"])
+        if target is not ctx.stack[-1]:
+            self.stat("reenter-ancestor")
+        before = current_action()
+
+        def body():
+            ctx.stack.append(target)
+            try:
+                self.expect_current(ctx, "inside re-entered context")
+                self.exec_nodes(node["body"], ctx)
+            finally:
+                ctx.stack.pop()
+
+        exc = None
+        if node["how"] == "run":
+            try:
+                self.api("run", action.run, body)
+            except (Abort, HarnessError):
+                raise
+            except BaseException as e:
+                exc = e
+        else:
+            cm = self.api("context()", action.context)
+            self.api("context.__enter__", cm.__enter__)
+            try:
+                body()
+            except (Abort, HarnessError):
+                raise
+            except BaseException as e:
+                exc = e
+                self._exit_cm(cm, e)
+            else:
+                self._exit_cm(cm, None)
+        if self.check_context and current_action() is not before:
+            self.run.context_errors.append(
+                "after re-entering %s via %s: current_action() is %r, was %r"
+                % (_act_desc(action), node["how"], _act_desc(current_action()), _act_desc(before))
+            )
         if exc is not None:
             raise exc
 
@@ -484,7 +643,7 @@ class Interp(object):
             model["status"] = "succeeded"
             model["end"] = model.pop("end_expected", {})
         elif exc is not None:
-            self._fail(model, exc)
+            self._fail(model, exc, ctx)
         if self.check_context and current_action() is not before:
             self.run.context_errors.append(
                 "after action %d (%s): current_action() is %r, was %r before entry"
@@ -533,10 +692,10 @@ class Interp(object):
         args = [py_sf[k] for k in names]
         try:
             got = self.api("log_call()", wrapped, n, *args)
-        except Abort:
+        except (Abort, HarnessError):
             raise
         except BaseException as e:
-            self._fail(model, e)
+            self._fail(model, e, ctx)
             raise
         if got is not result:
             self.run.errors.append({"call": "log_call()", "exception": "return value altered", "where": "_action.py:log_call"})
@@ -587,11 +746,11 @@ class Interp(object):
                 self.exec_nodes(body, cctx)
             finally:
                 cctx.stack.pop()
-        except Abort:
+        except (Abort, HarnessError):
             raise
         except BaseException as e:
             self.api("__exit__", action.__exit__, type(e), e, e.__traceback__)
-            self._fail(model, e)
+            self._fail(model, e, cctx)
         else:
             self.api("__exit__", action.__exit__, None, None, None)
             model["status"] = "succeeded"
@@ -675,11 +834,11 @@ class Interp(object):
             before = current_action()
             try:
                 got = self.api("preserved()", wrapped)
-            except Abort:
+            except (Abort, HarnessError):
                 raise
             except BaseException as e:
                 if model is not None:
-                    self._fail(model, e)
+                    self._fail(model, e, cctx)
             else:
                 if got is not state:
                     self.run.errors.append({"call": "preserved()", "exception": "result altered", "where": "_action.py:preserve_context"})
@@ -774,6 +933,8 @@ def run_program(program, sink="memory", opts=None, destinations=None, before=Non
         def go():
             try:
                 interp.exec_nodes(program, Ctx())
+            except HarnessError:
+                raise
             except Abort:
                 run.stats["aborted"] = 1
             except BaseException as e:
@@ -782,9 +943,7 @@ def run_program(program, sink="memory", opts=None, destinations=None, before=Non
 
                     frames = tbm.extract_tb(e.__traceback__)
                     if frames and (os.sep + "pbt" + os.sep) in frames[-1].filename and not getattr(e, "hostile", False):
-                        from .core import HarnessError
-
-                        raise HarnessError("harness bug: %s" % "".join(tbm.format_exception(type(e), e, e.__traceback__)))
+                                raise HarnessError("harness bug: %s" % "".join(tbm.format_exception(type(e), e, e.__traceback__)))
                     run.errors.append({"call": "program", "exception": "foreign exception escaped: %r" % (e,), "where": "?"})
                 else:
                     interp.stat("escaped-to-top")
@@ -916,6 +1075,9 @@ def program_features(program):
             elif op == "try":
                 f["try"] += 1
                 walk(node["body"], depth)
+            elif op == "reenter":
+                f["reenter"] = f.get("reenter", 0) + 1
+                walk(node["body"], depth)
             elif op in ("remote", "preserve"):
                 f["remote"] += 1
                 f["depth"] = max(f["depth"], depth + 1)
@@ -930,7 +1092,7 @@ def program_features(program):
 TYPE_NAMES = ["app:a", "app:b", "app:c", "sys:x", "t"]
 
 
-def programs(max_nodes=12, faults=False, remote=True, kinds=None, msg_kinds=None, raises=True, preserve=True, max_depth=5):
+def programs(max_nodes=12, faults=False, remote=True, kinds=None, msg_kinds=None, raises=True, preserve=True, max_depth=5, reenter=True):
     """
     Strategy for programs.  Depth is drawn first so that deep nestings are
     as likely as shallow ones; `max_nodes` bounds the body sizes.
@@ -953,8 +1115,9 @@ def programs(max_nodes=12, faults=False, remote=True, kinds=None, msg_kinds=None
 
     def compound(body):
         action = st.builds(
-            lambda kind, atype, sf, ef, body, typed, extra, ir, dt: {
+            lambda kind, atype, sf, ef, body, typed, extra, ir, dt, exc: {
                 "op": "action",
+                "exc": exc,
                 "kind": kind,
                 "atype": atype,
                 "sf": sf,
@@ -974,8 +1137,18 @@ def programs(max_nodes=12, faults=False, remote=True, kinds=None, msg_kinds=None
             st.sampled_from([0, 0, 0, 1, 2]),
             st.booleans(),
             st.sampled_from([False, False, True]),
+            exc_idx,
         )
         options = [action, action, action, action]
+        if reenter:
+            options.append(
+                st.builds(
+                    lambda how, up, body: {"op": "reenter", "how": how, "up": up, "body": body},
+                    st.sampled_from(["context", "run"]),
+                    st.sampled_from([0, 0, 1, 2, 3]),
+                    body,
+                )
+            )
         if raises:
             options.append(body.map(lambda b: {"op": "try", "body": b}))
         if remote:
